@@ -1076,6 +1076,9 @@ EXPLANATION += (
 EXPLANATION += (
     ' R10: front-end memory is linear in the input - (a) no builder of the line-start table is reached per located position (inside a loop, or from a function or closure that is, four call levels), (b) no scanner buffer is reserved with a size derived from the rest of the input (D38, D39 found and repaired). R5b accepts an index that is the result of a binary search of the same table.'
 )
+EXPLANATION += (
+    ' R11: an offset returned by memchr / memchr2 for a search of src[P..] is turned into a position by adding it to P and to nothing else. R12: every constant index into an argument list in the checker follows a test that the element exists (is_empty() == false on every way into an or-pattern arm, or a comparison that puts the length above the index).'
+)
 ASSUMPTIONS = ["the input is a &str (valid UTF-8)", "memchr2 returns an index <= haystack length"]
 TRUSTED = ["rustc nightly MIR", "nsx exporter", "nsverif expression reconstruction / staleness computation"]
 NONTRIVIAL = "one obligation per cursor write, call-site justification, byte read, unchecked re-slice, parser loop; distinct = distinct site"
